@@ -198,9 +198,11 @@ theorem mk_inv {steps : Nat} {lists : Bool} {l r : List Rat} {P : PB} (h : mk st
       · split at h
         · cases h
         · rename_i hinc
-          cases h
-          simp only [Bool.or_eq_true, Bool.not_eq_true', not_or, Bool.not_eq_false] at hinc
-          exact ⟨h1, h2, (isIncreasing_iff _).mp hinc.1, (isIncreasing_iff _).mp hinc.2⟩
+          split at h
+          · cases h
+          · cases h
+            simp only [Bool.or_eq_true, Bool.not_eq_true', not_or, Bool.not_eq_false] at hinc
+            exact ⟨h1, h2, (isIncreasing_iff _).mp hinc.1, (isIncreasing_iff _).mp hinc.2⟩
 
 theorem mk_wfs {steps : Nat} {lists : Bool} {l r : List Rat} {P : PB} (h : mk steps lists l r = .ok P) :
     WFS steps P := by
